@@ -260,6 +260,10 @@ def judge(plan, sim, sb, cl, ledger, node_results, violations, states, info,
     def violate(cls, detail):
         violations.append({'class': cls, 'detail': detail})
 
+    if not cl.launched and all(r == 'returned'
+                               for r in node_results.values()):
+        raise HarnessError('run-parallel returned without starting a single '
+                           'process through the multiprocessing seam')
     # (1) nothing raises
     for (rnd, j), r in sorted(node_results.items()):
         if r not in ('returned', 'killed'):
